@@ -22,7 +22,8 @@ EXPLANATION = (
     "exactly that step, indexed by the axis the accumulator was sized for, and then store the target as the reported "
     "value; (R5) no other method mutates the cube in place (replace_nan is the one documented exception). By induction "
     "the cube after any update sequence is the folded cube rotated by T(last target): idempotent, history independent, "
-    "and bit-identical to the original at the folding values; np.roll preserves each profile's multiset."
+    "and bit-identical to the original at the folding values; np.roll preserves each profile's multiset. "
+    "Since F34, R4 also forbids an unqualified squeeze where the steps come from (params.compute_dmdelays, foldedcube): with one sub-band the step array must stay 1-D."
 )
 MOD = "sigpyproc.foldedcube"
 CLS = "FoldedData"
